@@ -1771,6 +1771,7 @@ type structuralScan struct {
 	all      []*ast.FuncDecl
 	hookFile map[*ast.FuncDecl]bool
 	facts    []string
+	prims    []string // package-level synchronisation primitives whose methods are called (information)
 }
 
 func rootIdent(x ast.Expr) *ast.Ident {
@@ -1985,6 +1986,51 @@ func (sc *structuralScan) allowedWriters() map[*ast.FuncDecl]bool {
 	return allowed
 }
 
+// isSyncPrimitiveDecl: a package-level sync.Pool / Once / Mutex / RWMutex / WaitGroup or a sync/atomic value. Their
+// methods are what one uses to share state WITHOUT a data race, so a call to them is not evidence against the
+// data-race argument (what travels through a Pool can still carry history from one call to the next: that is what
+// the order / reuse / concurrent oracles observe on the results).
+func isSyncPrimitiveDecl(vs *ast.ValueSpec) bool {
+	isPrim := func(t ast.Expr) bool {
+		if s, ok := t.(*ast.StarExpr); ok {
+			t = s.X
+		}
+		if ix, ok := t.(*ast.IndexExpr); ok { // atomic.Pointer[T]
+			t = ix.X
+		}
+		se, ok := t.(*ast.SelectorExpr)
+		if !ok {
+			return false
+		}
+		id, ok := se.X.(*ast.Ident)
+		if !ok {
+			return false
+		}
+		if id.Name == "atomic" {
+			return true
+		}
+		return id.Name == "sync" && map[string]bool{"Pool": true, "Once": true, "Mutex": true, "RWMutex": true, "WaitGroup": true}[se.Sel.Name]
+	}
+	if vs.Type != nil && isPrim(vs.Type) {
+		return true
+	}
+	if len(vs.Values) == 1 {
+		switch v := vs.Values[0].(type) {
+		case *ast.UnaryExpr:
+			if cl, ok := v.X.(*ast.CompositeLit); ok && v.Op == token.AND {
+				return isPrim(cl.Type)
+			}
+		case *ast.CompositeLit:
+			return isPrim(v.Type)
+		case *ast.CallExpr:
+			if id, ok := v.Fun.(*ast.Ident); ok && id.Name == "new" && len(v.Args) == 1 {
+				return isPrim(v.Args[0])
+			}
+		}
+	}
+	return false
+}
+
 func isSyncMapDecl(vs *ast.ValueSpec) bool {
 	isSyncMap := func(t ast.Expr) bool {
 		if s, ok := t.(*ast.StarExpr); ok {
@@ -2174,6 +2220,8 @@ func (sc *structuralScan) check(cacheVars map[string]string) {
 								} else if !map[string]bool{"Load": true, "Store": true, "LoadOrStore": true, "Range": true, "Clear": true}[fun.Sel.Name] {
 									fact(fmt.Sprintf("cache-unexpected-method-%s:%s.%s@%s", fun.Sel.Name, sc.pkg, recv.Name, name))
 								}
+							} else if isSyncPrimitiveDecl(sc.vars[recv.Name]) {
+								sc.prims = append(sc.prims, recv.Name)
 							} else if !cacheReadOnlyMethods[fun.Sel.Name] {
 								write(recv.Name, "method-"+fun.Sel.Name)
 							}
@@ -2216,6 +2264,9 @@ func cacheStructural(ctx *Ctx, repoDir string) {
 		}
 		ctx.Add(fmt.Sprintf("# cache.structural %s vars=%d funcs=%d", p.name, len(sc.vars), len(sc.all)), fmt.Sprintf("facts-violated=%d", len(sc.facts)), true, "C20")
 		ctx.Res.Count(fmt.Sprintf("cache.structural.%s.pkgvars=%d", p.name, len(sc.vars)))
+		for _, v := range sc.prims {
+			ctx.Res.Count("cache.structural.sync-primitive-used:" + p.name + "." + v)
+		}
 		seen := map[string]bool{}
 		for _, f := range sc.facts {
 			if seen[f] {
